@@ -445,8 +445,184 @@ fn byte_truncation_confusables() -> Vec<KeyCase> {
   v
 }
 
+// ---------------------------------------------------------------- long inputs in a helper process
+
+/// Very long keys and time strings (64 KiB .. 4 MiB): handled in a helper process on a 2 MiB-stack thread, once by the
+/// optimised and once by the unoptimised build, each case announced before it runs - a constructor that dies on them
+/// (stack overflow) is caught there.
+#[derive(Clone, Debug, serde::Serialize, serde::Deserialize)]
+pub struct LongCase {
+  pub index: u32,
+}
+pub struct LongInputs;
+
+/// (text, is a time string that must be accepted, description)
+fn long_case(i: usize) -> Option<(String, Option<bool>, String)> {
+  let sizes = [20_000usize, 65_536, 1 << 20, 4 << 20];
+  let n = sizes[i % 4];
+  Some(match i / 4 {
+    0 => ("a".repeat(n), Some(false), format!("{n} letters into the time-claim constructors")),
+    1 => (" ".repeat(n), Some(false), format!("{n} blanks into the time-claim constructors")),
+    2 => (format!("{}Tx", "9".repeat(n)), Some(false), format!("{n} digits then Tx into the time-claim constructors")),
+    3 => (format!("2019-01-01T00:00:00.{}Z", "1".repeat(n)), Some(true), format!("a timestamp with {n} fraction digits")),
+    4 => (format!("{}2019-01-01T00:00:00Z", "-".repeat(n)), Some(false), format!("{n} minus signs before a timestamp")),
+    5 => ("k".repeat(n), None, format!("a custom-claim key of {n} letters")),
+    6 => (format!("{}exp", " ".repeat(n)), None, format!("a custom-claim key of {n} blanks followed by exp")),
+    _ => return None,
+  })
+}
+
+/// Body of `pv c18-long all|<index>`
+pub fn long_child_main(args: &[String]) -> i32 {
+  use std::io::Write;
+  let only: Option<usize> = args.first().and_then(|a| a.parse().ok());
+  let worker = std::thread::Builder::new().stack_size(2 * 1024 * 1024).spawn(move || {
+    let mut i = only.unwrap_or(0);
+    while let Some((text, time_expect, desc)) = long_case(i) {
+      println!("CASE {i} {desc}");
+      let _ = std::io::stdout().flush();
+      let r = crate::engine::catch(|| match time_expect {
+        Some(valid) => {
+          let a = ExpirationClaim::try_from(text.as_str()).is_ok();
+          let b = NotBeforeClaim::try_from(text.clone()).is_ok();
+          let c = IssuedAtClaim::try_from(text.as_str()).is_ok();
+          if (a, b, c) == (valid, valid, valid) { "returned".to_string() } else { format!("PANIC - wrong-verdict accepted=({a},{b},{c})") }
+        }
+        None => {
+          let a = CustomClaim::<&str>::try_from(text.as_str()).is_ok();
+          let b = CustomClaim::try_from((text.clone(), 1)).is_ok();
+          if a && b { "returned".to_string() } else { "PANIC - wrong-verdict long key refused".to_string() }
+        }
+      });
+      match r {
+        Ok(line) => println!("RESULT {i} {line}"),
+        Err((loc, msg)) => println!("RESULT {i} PANIC {loc} {msg}"),
+      }
+      let _ = std::io::stdout().flush();
+      if only.is_some() {
+        break;
+      }
+      i += 1;
+    }
+    println!("DONE");
+  });
+  match worker.map(|w| w.join()) {
+    Ok(Ok(())) => 0,
+    _ => 3,
+  }
+}
+
+impl Sub for LongInputs {
+  type Case = LongCase;
+  fn name(&self) -> String {
+    "C18/long-inputs-in-a-helper-process".into()
+  }
+  fn check(&self, c: &LongCase, cl: &mut Classes) -> Verdict {
+    helper_verdict("C18", "c18-long", c.index, cl)
+  }
+}
+
+// ---------------------------------------------------------------- the very first constructions in a process, on several threads
+
+/// `runs` fresh processes; in each, `threads` threads released together construct custom claims as the first use of the
+/// library in that process: each thread one of the seven reserved names (refused) and one other name (accepted).
+#[derive(Clone, Debug, serde::Serialize, serde::Deserialize)]
+pub struct FirstUseCase {
+  pub runs: u32,
+  pub threads: u8,
+  pub shift: u8,
+  /// use the unoptimised build of the helper (target/debug/pv) when it exists: nothing inlined, every window wider
+  #[serde(default)]
+  pub unoptimised: bool,
+}
+pub struct FirstUse;
+
+const SEVEN: [&str; 7] = ["iss", "sub", "aud", "exp", "nbf", "iat", "jti"];
+
+/// Body of `pv c18-first <threads> <shift>`: nothing of the library runs before the threads are released
+pub fn first_use_child_main(args: &[String]) -> i32 {
+  use std::sync::atomic::{AtomicU32, Ordering};
+  let threads: u32 = args.first().and_then(|a| a.parse().ok()).unwrap_or(12).clamp(1, 64);
+  let shift: usize = args.get(1).and_then(|a| a.parse().ok()).unwrap_or(0);
+  let arrived = AtomicU32::new(0);
+  let lines: Vec<String> = std::thread::scope(|sc| {
+    let hs: Vec<_> = (0..threads as usize)
+      .map(|t| {
+        let arrived = &arrived;
+        sc.spawn(move || {
+          let name = SEVEN[(t + shift) % 7];
+          let other = format!("first-use-{t}");
+          arrived.fetch_add(1, Ordering::AcqRel);
+          while arrived.load(Ordering::Acquire) < threads {
+            std::hint::spin_loop();
+          }
+          let mut out = vec![];
+          match t % 3 {
+            0 => {
+              if CustomClaim::try_from((name, 1)).is_ok() { out.push(format!("ACCEPTED {name} (&str, i32) thread {t}")) }
+            }
+            1 => {
+              if CustomClaim::<&str>::try_from(name).is_ok() { out.push(format!("ACCEPTED {name} &str thread {t}")) }
+            }
+            _ => {
+              if CustomClaim::try_from((name.to_string(), "v")).is_ok() { out.push(format!("ACCEPTED {name} (String, &str) thread {t}")) }
+            }
+          }
+          if CustomClaim::try_from((other.as_str(), 1)).is_err() { out.push(format!("REFUSED {other} thread {t}")) }
+          out
+        })
+      })
+      .collect();
+    hs.into_iter().flat_map(|h| h.join().unwrap_or_else(|_| vec!["ACCEPTED ? a thread panicked".into()])).collect()
+  });
+  for l in &lines {
+    println!("{l}");
+  }
+  println!("DONE");
+  if lines.is_empty() { 0 } else { 3 }
+}
+
+impl Sub for FirstUse {
+  type Case = FirstUseCase;
+  fn name(&self) -> String {
+    "C18/first-use-in-a-process".into()
+  }
+  fn check(&self, c: &FirstUseCase, cl: &mut Classes) -> Verdict {
+    let exe = match std::env::current_exe() {
+      Ok(e) => e,
+      Err(_) => return Verdict::Discard,
+    };
+    let dev = exe.parent().and_then(|p| p.parent()).map(|p| p.join("debug").join("pv")).filter(|p| p.exists());
+    let (exe, build) = match (c.unoptimised, dev) {
+      (true, Some(d)) => (d, "unoptimised"),
+      _ => (exe, "optimised"),
+    };
+    let mut done = 0;
+    for run in 0..c.runs.min(5000) {
+      let out = match std::process::Command::new(&exe).args(["c18-first", &c.threads.to_string(), &((c.shift as u32 + run) % 7).to_string()]).env_remove("LD_PRELOAD").output() {
+        Ok(o) => o,
+        Err(_) => continue,
+      };
+      let text = String::from_utf8_lossy(&out.stdout).to_string();
+      if let Some(l) = text.lines().find(|l| l.starts_with("ACCEPTED ")) {
+        vio!("C18:reserved-key-accepted:first-use-in-a-process"; "process #{} of {}, {} threads constructing claims as the first use of the library: {}", run, c.runs, c.threads, l);
+      }
+      if let Some(l) = text.lines().find(|l| l.starts_with("REFUSED ")) {
+        vio!("C18:unreserved-key-refused:first-use-in-a-process"; "process #{} of {}, {} threads constructing claims as the first use of the library: {}", run, c.runs, c.threads, l);
+      }
+      if !text.lines().any(|l| l == "DONE") {
+        vio!("C18:process-died:first-use-in-a-process"; "process #{} of {} ended with {:?} before finishing", run, c.runs, out.status);
+      }
+      done += 1;
+    }
+    cl.tag(format!("fresh processes ({} build): threads={}", build, c.threads));
+    cl.nontrivial(done >= 10);
+    Verdict::Pass
+  }
+}
+
 pub fn subs() -> Vec<Box<dyn DynSub>> {
-  vec![Box::new(ReservedKeys { kind: "alphabet-sweep" }), Box::new(ReservedKeys { kind: "short-lowercase-sweep" }), Box::new(ReservedKeys { kind: "decorated" }), Box::new(TimeCtors)]
+  vec![Box::new(FirstUse), Box::new(LongInputs), Box::new(ReservedKeys { kind: "alphabet-sweep" }), Box::new(ReservedKeys { kind: "short-lowercase-sweep" }), Box::new(ReservedKeys { kind: "decorated" }), Box::new(TimeCtors)]
 }
 
 pub fn run(ctx: &Ctx) -> EvidenceMeta {
@@ -460,6 +636,11 @@ pub fn run(ctx: &Ctx) -> EvidenceMeta {
     Box::new(|| ctx.prop(&decorated, decorated_key(), ctx.n(30_000, 300_000))),
     Box::new(|| ctx.prop(&tc, (rfc3339_text(), any::<u8>()).prop_map(|(text, b)| TimeCtorCase { text, valid: true, through_token: b % 8 == 0 }), ctx.n(30_000, 300_000))),
     Box::new(|| ctx.enumerate(&tc, calendar_edge_cases().into_iter(), false)),
+    Box::new(|| {
+      if !ctx.is_child() {
+        ctx.enumerate(&LongInputs, std::iter::once(LongCase { index: u32::MAX }), false)
+      }
+    }),
     Box::new(|| ctx.prop(&tc, spoilt_date().prop_map(|text| TimeCtorCase { text, valid: false, through_token: false }), ctx.n(12_000, 120_000))),
     Box::new(|| ctx.enumerate(&sweep, byte_truncation_confusables().into_iter(), false)),
     Box::new(|| ctx.prop(&tc, not_a_date().prop_map(|text| TimeCtorCase { text, valid: false, through_token: false }), ctx.n(20_000, 200_000))),
@@ -476,11 +657,23 @@ pub fn run(ctx: &Ctx) -> EvidenceMeta {
     }),
   ];
   run_jobs(jobs);
+  if !ctx.is_child() {
+    // alone on the machine: the threads of each fresh process spin at a gate
+    let runs = ctx.n(120, 1200) as u32;
+    let cases = vec![
+      FirstUseCase { runs, threads: 32, shift: 0, unoptimised: true },
+      FirstUseCase { runs, threads: 12, shift: 2, unoptimised: true },
+      FirstUseCase { runs: runs / 2, threads: 3, shift: 3, unoptimised: true },
+      FirstUseCase { runs: runs / 2, threads: 3, shift: 4, unoptimised: false },
+      FirstUseCase { runs: runs / 2, threads: 12, shift: 5, unoptimised: false },
+    ];
+    run_jobs(vec![Box::new(move || ctx.enumerate(&FirstUse, cases.into_iter(), false))]);
+  }
   EvidenceMeta {
     rule: "custom-claim keys: every string of length <= 4 over the 16-symbol alphabet {letters of iss/sub/aud/exp/nbf/iat/jti, 'E', space, NUL} (69,905 keys, exhaustive), every lower-case key of 1-3 letters (18,278, exhaustive), 40 claim names in common use elsewhere, every key obtained from a reserved key by replacing one character with a code point congruent to it modulo 256 (about 91 000), escape spellings of the reserved keys as key text (backslash-u, percent, entity), and generated case/whitespace/NUL/combining-mark/BOM decorations of the reserved keys and random Unicode keys, \
            each through the three constructor forms (&str; (&str, T); (String, T)) with T in {&str, i64, bool, Vec, struct, serde_json::Value, Option, u128::MAX, i128::MIN, NaN, None, (), a tuple-keyed map, u64::MAX}; oracle: Err(Reserved(k)) iff the key is exactly one of the seven, otherwise Ok with get_key() unchanged, and (sampled) the value arrives under that key through a built token. \
            time claims: generated RFC 3339 date-times (upper-case T/Z or numeric offset, years 0000-9999, every day of the calendar, 0-30 fraction digits, leap seconds; every 29 February of the years 0000-9999 and every month end of ten chosen years) into the &str and String forms of ExpirationClaim/NotBeforeClaim/IssuedAtClaim: Ok, stored verbatim, verbatim in the token payload; \
-           strings whose first four characters are not all ASCII digits and that do not begin with a sign, and RFC 3339 strings whose date part is spoilt by a sign, blank or letter inside the year / month / day field: Err(RFC3339Date). Non-trivial = key within edit distance 1 of a reserved key, or a time string with an offset/fraction or from the must-reject domain; distinct by input."
+           strings whose first four characters are not all ASCII digits and that do not begin with a sign, and RFC 3339 strings whose date part is spoilt by a sign, blank or letter inside the year / month / day field: Err(RFC3339Date); keys and time strings of 20 000 .. 4 Mi characters in a helper process (optimised and unoptimised build); first use in a process: 420 (thorough 4200) fresh processes of the unoptimised and the optimised helper with 3 / 12 / 32 threads, in each the threads are released together and construct, as the first use of the library in that process, one reserved name each (all three constructor forms) and one other name => every reserved name refused, every other accepted. Non-trivial = key within edit distance 1 of a reserved key, or a time string with an offset/fraction or from the must-reject domain; distinct by input."
       .into(),
     assumptions: vec!["strings between the accepted and the must-reject domain (e.g. ISO 8601 forms that are not RFC 3339) are not judged".into()],
   }
